@@ -919,7 +919,7 @@ def run(repo, outdir, only=None):
             src = srcs.get(path) or open(path).read(); srcs[path] = src
             fn = Fn(spec, src, consts(src))
             code = fn.translate()
-            sha = hashlib.sha256(fn.text.encode()).hexdigest()[:16]
+            sha = hashlib.sha256((fn.text + repr(sorted(fn.cst.items()))).encode()).hexdigest()[:16]
             text = HEADER.format(file=spec['file'], item=item, sha=sha, imports=imports) + code + "\n\nend Jp.Gen\n"
             status[spec['id']] = dict(status='translated', lean=spec['lean'], file=spec['file'], sha=sha)
         except (Unsupported, OSError, RecursionError, KeyError, IndexError, ValueError, TypeError, AttributeError) as ex:
